@@ -318,7 +318,29 @@ def finish(prop, tier, seed, merged, t0, level='model_checking', bounds=None, ou
     known = [k for k in load_known() if k.get('property') == prop and k.get('status') == 'known']
     viol = merged['viol']
     # ---- native replay of every counterexample (dev + release)
-    specs = [v for v in viol if v.get('replay') and v['replay'].get('program')]
+    # ---- allocation-behaviour counterexamples (C02) replay as a scaling measurement: the same k mutations on a collection of
+    #      size n_small and n_big; in-place mutation costs the same, a hidden copy per step scales with n
+    tspecs = [v for v in viol if v.get('replay') and v['replay'].get('timing')]
+    for v in tspecs:
+        tm = v['replay']['timing']; best = {}
+        for prof in ('release',):
+            for key in ('small', 'base', 'big'):
+                ts = []
+                for _ in range(3):
+                    o = nlrun(['#TIMED ' + tm[key]], prof)[0]
+                    mm = re.match(r'T (\d+) (.*)', o)
+                    if mm and mm.group(2).startswith('OK'): ts.append(int(mm.group(1)))
+                best[key] = min(ts) if ts else None
+        v['native'] = {'small_us': best.get('small'), 'big_us': best.get('big')}
+        if best.get('small') is None or best.get('big') is None: v['replay']['program'] = None; continue
+        # small: size n_small with k mutations; base: size n_big with no mutation (construction cost); big: size n_big with k mutations
+        ref = max(best['small'], best.get('base') or 0, 5000)
+        slow = best['big'] > tm.get('ratio', 5) * ref
+        v['replay']['program'] = tm['big']; v['replay']['expect'] = f'time(n_big, k steps) <= {tm.get("ratio", 5)} x max(time(n_small, k steps), time(n_big, 0 steps), 5 ms)'
+        desc = f'small {best["small"]} us, base {best.get("base")} us, big {best["big"]} us'
+        v['native'] = {'dev': desc, 'release': desc}
+        v['timing_confirmed'] = slow
+    specs = [v for v in viol if v.get('replay') and v['replay'].get('program') and not v['replay'].get('timing')]
     progs = [v['replay']['program'] for v in specs]
     res_dev = nlrun(progs, 'dev', timeout_ms=20000) if progs else []
     res_rel = nlrun(progs, 'release', timeout_ms=20000) if progs else []
@@ -337,7 +359,10 @@ def finish(prop, tier, seed, merged, t0, level='model_checking', bounds=None, ou
         v['native'] = {'dev': d[:300], 'release': r[:300]}
         if bad(d) or bad(r): confirmed.append(v)
         else: nonrepro.append(v)
-    unreplayable = [v for v in viol if not (v.get('replay') and v['replay'].get('program'))]
+    for v in tspecs:
+        if v['replay'].get('program') is None: continue
+        (confirmed if v.get('timing_confirmed') else nonrepro).append(v)
+    unreplayable =[v for v in viol if not (v.get('replay') and v['replay'].get('program'))]
     # ---- classification
     new, matched = [], {}
     for v in confirmed:
